@@ -105,12 +105,14 @@ func (df *DataFile) WriteHintRecord(key []byte, hintPos []byte, pos *DataPos) er
 	return err
 }
 
-func (df *DataFile) WriteMergeFinRecord(id FileID) error {
+// WriteMergeFinRecord 写入未参与 merge 的最近数据文件 id 和 merge 重写得到的数据文件个数
+func (df *DataFile) WriteMergeFinRecord(id FileID, mergedCount uint32) error {
 	if df.closed {
 		return ErrClosed
 	}
-	data := make([]byte, 4)
-	binary.LittleEndian.PutUint32(data, id)
+	data := make([]byte, 8)
+	binary.LittleEndian.PutUint32(data[:4], id)
+	binary.LittleEndian.PutUint32(data[4:], mergedCount)
 	_, err := df.ReadWriter.Write(data)
 	return err
 }
@@ -275,18 +277,17 @@ func (df *DataFile) ReadRecordValue(logRecordPos *DataPos) ([]byte, error) {
 	return value, nil
 }
 
-func (df *DataFile) ReadMergeFinRecord() FileID {
+func (df *DataFile) ReadMergeFinRecord() (FileID, uint32) {
 	if df.closed {
-		return 0
+		return 0, 0
 	}
 	buf := bytebufferpool.Get()
 	defer bytebufferpool.Put(buf)
 	err := df.readToBuf(0, 0, buf)
-	if err != nil {
-		return 0
+	if err != nil || buf.Len() < 8 {
+		return 0, 0
 	}
-	value := binary.LittleEndian.Uint32(buf.Bytes())
-	return value
+	return binary.LittleEndian.Uint32(buf.B[:4]), binary.LittleEndian.Uint32(buf.B[4:8])
 }
 
 func (df *DataFile) readToBuf(blockID uint32, offset uint32, buf *bytebufferpool.ByteBuffer) error {
